@@ -229,6 +229,9 @@ func customConv(family string, cl customLeaf, s shape, format string, n int, wra
 			if i > 0 && (part == "struct" || part == "rec" || part == "recp") {
 				inlineOnly = false
 			}
+			if part == "extsamename" && strings.Contains(s.Name, "_") {
+				inlineOnly = false // this leaf is itself a named struct pair converted by a generated sub-method
+			}
 		}
 		switch {
 		case (n/3)%3 == 2 && inlineOnly:
